@@ -30,6 +30,8 @@ fn main() {
             Some("keepalive") => (Phase::Keepalive, "C14"),
             Some("reload") => (Phase::Reload, "C19"),
             Some("control") => (Phase::Control, "C18"),
+            Some("recovery") => (Phase::Recovery, "C08"),
+            Some("recovery4") => (Phase::RecoveryEligibility, "C04"),
             _ => (Phase::Subscription, "C20"),
         };
         let n = args.get(2).and_then(|s| s.parse().ok()).unwrap_or(1);
